@@ -77,6 +77,9 @@ package coroutines
 //@ overflow C07
 // the task is born claimed by the requesting process with the lease the request asks for (C07): ttl, expiry, timeout
 //@ site call createPromiseAndTask assert taskCmd != nil && taskCmd.State == task.Claimed && taskCmd.Ttl == r.CreatePromiseAndTask.Task.Ttl && taskCmd.ProcessId != nil && *taskCmd.ProcessId == r.CreatePromiseAndTask.Task.ProcessId && taskCmd.Timeout == r.CreatePromiseAndTask.Task.Timeout && taskCmd.Id == sprintf("__invoke:%s", r.CreatePromiseAndTask.Task.PromiseId)
+// the lease of the task that is born claimed ends ttl after now, like any claim (C07, C06: a creator that never
+// learns it holds the task loses it after ttl, and the invocation is dispatched again)
+//@ site call createPromiseAndTask assert [C07 C06 C08] taskCmd.ExpiresAt == wrap64(now() + r.CreatePromiseAndTask.Task.Ttl)
 //@ requires c != nil && r != nil && r.Kind == t_api.CreatePromiseAndTask && r.CreatePromiseAndTask != nil && r.CreatePromiseAndTask.Promise != nil && r.CreatePromiseAndTask.Task != nil
 //@ requires r.CreatePromiseAndTask.Promise.Id == r.CreatePromiseAndTask.Task.PromiseId && r.CreatePromiseAndTask.Promise.Timeout == r.CreatePromiseAndTask.Task.Timeout
 //@ ensures (res != nil) != (err != nil)
@@ -214,8 +217,8 @@ package coroutines
 // ids are compared exactly (C20): only a callback whose two ids are the same string is refused as self-referential
 //@ ensures [C20 C05] err == nil && r.CreateCallback.PromiseId != r.CreateCallback.RootPromiseId ==> res.CreateCallback.Status != t_api.StatusCallbackInvalidPromise
 //@ macro cbc_post() cb_post(res.CreateCallback.Status, res.CreateCallback.Promise, res.CreateCallback.Callback, sprintf("__resume:%s:%s", r.CreateCallback.RootPromiseId, r.CreateCallback.PromiseId), r.CreateCallback.PromiseId, r.CreateCallback.RootPromiseId, r.CreateCallback.Recv, "resume", r.CreateCallback.RootPromiseId, r.CreateCallback.PromiseId, r.CreateCallback.Timeout)
-//@ ensures [C02 C05] err == nil && r.CreateCallback.PromiseId != r.CreateCallback.RootPromiseId && res.CreateCallback.Status != t_api.StatusOK ==> cbc_post()
-//@ ensures [C02 C05] err == nil && r.CreateCallback.PromiseId != r.CreateCallback.RootPromiseId && res.CreateCallback.Status == t_api.StatusOK && res.CreateCallback.Promise.State != promise.Pending ==> cbc_post()
+//@ ensures [C02 C05 C07] err == nil && r.CreateCallback.PromiseId != r.CreateCallback.RootPromiseId && res.CreateCallback.Status != t_api.StatusOK ==> cbc_post()
+//@ ensures [C02 C05 C07] err == nil && r.CreateCallback.PromiseId != r.CreateCallback.RootPromiseId && res.CreateCallback.Status == t_api.StatusOK && res.CreateCallback.Promise.State != promise.Pending ==> cbc_post()
 //@ ensures [C02 C05] err == nil && r.CreateCallback.PromiseId != r.CreateCallback.RootPromiseId && res.CreateCallback.Status == t_api.StatusOK && res.CreateCallback.Promise.State == promise.Pending ==> cbc_post()
 //@ ensures [C15 C13] err == nil ==> res != nil && res.Kind == t_api.CreateCallback && res.CreateCallback != nil && kstatus.CreateCallback(res.CreateCallback.Status)
 //@ ensures [C15 C13] err != nil ==> kerr.platform(errcode(err))
